@@ -459,7 +459,12 @@ def run_cases(part, item_key, cases, seed, rep):
         if case["kind"] == "adv":
             fails, outcome = exec_adv(cache, seed, case)
         else:
-            fails, outcome = exec_raw(cache, seed, case["hops"], case["payload"], case.get("feats"))
+            fails = []
+            if case.get("after") is not None:
+                # history: the SAME receiver has just validated this (undamaged) packet
+                fails, _ = exec_raw(cache, seed, case["hops"], case["after"], case.get("feats"))
+            f2, outcome = exec_raw(cache, seed, case["hops"], case["payload"], case.get("feats"))
+            fails = fails + f2
         rep.case()
         rep.transitions += 1
         rep.traces += 1
@@ -634,6 +639,14 @@ def dom_corrupt(tier, seed):
             pairs_f = [(a, b) for a in range(8, 16) for b in range(256) if b != a] if hops == 0 else []
         cases += [dict(kind="raw", hops=hops, payload=flip(short, p), feats={"corrupt": "2bit"}) for p in pairs_s]
         cases += [dict(kind="raw", hops=hops, payload=flip(full, p), feats={"corrupt": "2bit"}) for p in pairs_f]
+        # every corruption again, each one received right after the undamaged packet (by the same receiver object): all 1-bit
+        # errors, all 2-bit errors inside the CRC field, CRC bit x any other bit (thorough: every 2-bit error)
+        for base in (short, full):
+            r0 = (8 * (2 + ble.decode(base, ch)[0][1] + 3)) - 24
+            seq = [(k,) for k in range(256)] + list(itertools.combinations(range(r0, r0 + 24), 2))
+            if tier == "thorough" or hops == 0:
+                seq += [(a, b) for a in range(r0) for b in range(r0, r0 + 24)]
+            cases += [dict(kind="raw", hops=hops, payload=flip(base, p), after=base, feats={"corrupt": "%dbit-after-valid" % len(p)}) for p in seq]
         items += split("corrupt", cases, 10 if tier == "quick" else 24, seed)
     return [(p, "%s-%d" % (k, i), c, s) for i, (p, k, c, s) in enumerate(items)]
 
@@ -1039,6 +1052,11 @@ def replay(data):
         if case["kind"] == "adv":
             fails, outcome = exec_adv({}, seed, case)
         else:
-            fails, outcome = exec_raw({}, seed, case["hops"], case["payload"], case.get("feats"))
+            cache = {}
+            fails = []
+            if case.get("after") is not None:
+                fails, _ = exec_raw(cache, seed, case["hops"], case["after"], case.get("feats"))
+            f2, outcome = exec_raw(cache, seed, case["hops"], case["payload"], case.get("feats"))
+            fails = fails + f2
     print("outcome:", outcome)
     return K.replay_verdict(data, [(c, w) for c, w, _ in fails])
